@@ -245,6 +245,10 @@ func (s *Session) resume(o *Config) bool {
 				return false
 			}
 			s.smActive = true
+			if s.SMState.bindJid != "" {
+				// the session that goes on is the one that was bound when stream management was enabled
+				s.BindJid = s.SMState.bindJid
+			}
 			if p.H != nil {
 				if err := s.sendUnhandled(int(*p.H)); err != nil {
 					// The connection is gone again; the stanzas stay held for the next attempt.
@@ -439,7 +443,7 @@ func (s *Session) EnableStreamManagement(o *Config) {
 			if err != nil || !b {
 				o.StreamManagementEnable = false
 			}
-			s.SMState = SMState{Id: p.Id, preferredReconAddr: p.Location}
+			s.SMState = SMState{Id: p.Id, preferredReconAddr: p.Location, bindJid: s.BindJid}
 			s.SMState.UnAckQueue = q
 			s.smActive = true
 		case stanza.SMFailed:
